@@ -284,6 +284,21 @@ def trialStep (toks : List String) : String :=
     | _, _, _ => "bad-op"
   | _ => "bad-op"
 
+/-- `tcount ts st en bs align` → rows as in `trial` -/
+def tcountStep (toks : List String) : String :=
+  match toks with
+  | ["tcount", ts, st, en, bs, al] =>
+    match parseArr ts, parseArr st, parseArr en, bs.toInt?, parseBool al with
+    | some ts, some st, some en, some bs, some al =>
+      if h : st.size = en.size ∧ 0 < bs then
+        match trialCount ts st en h.1 bs al with
+        | .ok rows => "|".intercalate (rows.map fun r =>
+            if r.size == 0 then "." else ",".intercalate (r.toList.map fun c => match c with | some k => toString k | none => "-"))
+        | .error e => showErr e
+      else "pre-fail"
+    | _, _, _, _, _ => "bad-op"
+  | _ => "bad-op"
+
 def stepAll (line : String) : String :=
   let toks := (line.trimAscii.toString.splitOn " ").filter (· ≠ "")
   match toks with
@@ -302,6 +317,7 @@ def stepAll (line : String) : String :=
   | "tsplit" :: _ => metaStep toks
   | "eta" :: _ => etaStep toks
   | "trial" :: _ => trialStep toks
+  | "tcount" :: _ => tcountStep toks
   | _ => kernelStep toks
 
 end Pyn
